@@ -27,8 +27,18 @@ pub const POOL_HOSTILE: &[char] = &[
     '\u{b}', '\u{c}', '\u{1c}', '\u{1d}', '\u{1e}', '\u{1f}', '\u{2029}', '\u{8}', '\u{e}',
 ];
 
+/// The first and last scalar value of every UTF-8 length and lead-byte class (lead bytes 0xC2,
+/// 0xDF | 0xE0 | 0xE1, 0xEC | 0xED | 0xEE, 0xEF | 0xF0 | 0xF1, 0xF3 | 0xF4), plus Thai /
+/// Devanagari letters from the 0xE0 block.
+pub const POOL_UTF8_EDGES: &[char] = &[
+    '\u{7f}', '\u{80}', '\u{7ff}', '\u{800}', '\u{fff}', '\u{1000}', '\u{cfff}', '\u{d000}', '\u{d7ff}',
+    '\u{e000}', '\u{ffff}', '\u{10000}', '\u{3ffff}', '\u{40000}', '\u{fffff}', '\u{100000}', '\u{10ffff}',
+    'ส', 'न', '\u{0e33}', '\u{0903}',
+];
+
 pub const POOLS: &[&[char]] = &[
     POOL_ASCII,
+    POOL_UTF8_EDGES,
     POOL_2B,
     POOL_HIRA,
     POOL_KATA,
